@@ -487,18 +487,16 @@ Proof.
   intros v e ks s. rewrite !close_table_cell_eq.
   destruct (gather_Pr e ks) as [pr|x]; cbn [bind]; [|reflexivity].
   change (c_tree (F s)) with (FT (c_tree s)).
-  assert (H0 : match FT (c_tree s) with [] => Err IndexError | t :: _ => as_list t end
-             = res_map FT match c_tree s with [] => Err IndexError | t :: _ => as_list t end).
-  { destruct (c_tree s) as [|t r]; cbn [map res_map]; [reflexivity|apply as_list_F]. }
-  rewrite H0. clear H0.
-  destruct (match c_tree s with [] => Err IndexError | t :: _ => as_list t end) as [rows0|x];
-    cbn [res_map bind]; [|reflexivity].
-  assert (H1 : match FT rows0 with [] => Err IndexError | r :: _ => as_list r end
-             = res_map FT match rows0 with [] => Err IndexError | r :: _ => as_list r end).
-  { destruct rows0 as [|t r]; cbn [map res_map]; [reflexivity|apply as_list_F]. }
-  rewrite H1. clear H1.
-  destruct (match rows0 with [] => Err IndexError | r :: _ => as_list r end) as [r0|x];
-    cbn [res_map bind]; [|reflexivity].
+  (* the two early returns of the repaired _close_table_cell *)
+  destruct (c_tree s) as [|tb0 root0] eqn:Eroot0; [reflexivity|].
+  cbn [map]. rewrite as_list_F.
+  destruct (as_list tb0) as [rows0|x]; cbn [res_map bind]; [|reflexivity].
+  destruct rows0 as [|rb0 rows1] eqn:Erows1; [reflexivity|].
+  cbn [map]. rewrite as_list_F.
+  destruct (as_list rb0) as [r0|x]; cbn [res_map bind]; [|reflexivity].
+  change (forget_elem tb0 :: FT root0) with (FT (tb0 :: root0)).
+  change (forget_elem rb0 :: FT rows1) with (FT (rb0 :: rows1)).
+  rewrite <- Eroot0, <- Erows1.
   cbv zeta. rewrite !map_length.
   assert (H2 : (if (env_dup v && is_continuation pr && Nat.ltb 1 (length rows0))%bool
                 then vmerge (length (c_tree s) - 1) (length rows0 - 1) (F s) else Ok (F s))
